@@ -56,3 +56,24 @@ Example a_valid_stream :
   = Valid [ETriple (TIri [104; 97]) (TIri [104; 98]) (TLit [120] None None);
            ETriple (TIri [104; 97]) (TIri [104; 98]) (TIri [104; 97])].
 Proof. vm_compute. reflexivity. Qed.
+
+(* ---- from bytes: any valid stream, serialised, is decoded to what it encodes ---- *)
+From PJ.Model Require Import Wire.
+From PJ.Proofs Require Import WireProofs WireRT BytesE2E.
+
+Theorem C04_valid_bytes_decode_delimited :
+  forall (fs : list frame) (evs : list event) (grouped : bool),
+    run_frames fs = Valid evs -> Forall small fs ->
+    (match fs with f :: _ => (f_rows f = [] /\ f_meta f = []) \/ f_rows f <> [] | [] => True end) ->
+    let r := parse_stream Generic grouped false (write_delimited fs) in
+    flat_events r = evs /\ pr_end r = PEnd /\ length (pr_frames r) = length fs.
+Proof. exact valid_bytes_decode_delimited. Qed.
+Print Assumptions C04_valid_bytes_decode_delimited.
+
+Theorem C04_valid_bytes_decode_single :
+  forall (f : frame) (evs : list event) (grouped : bool),
+    run_frames [f] = Valid evs -> small f ->
+    let r := parse_stream Generic grouped false (write_single f) in
+    flat_events r = evs /\ pr_end r = PEnd /\ length (pr_frames r) = 1%nat.
+Proof. exact valid_bytes_decode_single. Qed.
+Print Assumptions C04_valid_bytes_decode_single.
